@@ -57,3 +57,32 @@ Definition wdiffs (l : list wcase) := bad_idx wdiff_case l.
 Definition wmon_tracks (c : wcase) : bool := bools_eqb (w_obs c) (w_paused c).
 Definition wmon_alternates (c : wcase) : bool := alternating true (w_calls c).
 Definition wmons (l : list wcase) := mon_idx [wmon_tracks; wmon_alternates] l.
+
+(* start-up check (driver "diskstart"): one real controler.Start() in a child process whose job
+   directory lies on another filesystem than its working directory.  (total, free) = statfs of
+   the JOB volume (f_blocks, f_bavail, in bytes) taken by the child right before the start, the
+   operator's --min-space-required, and what the crawler did.  [SNotRun]: the case could not be
+   set up on this machine (fewer than two filesystems with different free space, free space moving
+   too close to the chosen threshold): nothing is claimed. *)
+Inductive soutcome := SStarted | SRefused | SNotRun.
+Record scase := SC { s_total : Z; s_free : Z; s_ms : fl; s_out : soutcome }.
+
+(* correspondence: the threshold model evaluated on the JOB volume's numbers predicts the outcome *)
+Definition sdiff_case (c : scase) : bool :=
+  match s_out c, refuse (s_total c) (s_free c) (s_ms c) with
+  | SStarted, Some r => r
+  | SRefused, Some r => negb r
+  | _, _ => false
+  end.
+
+(* monitor 0: the specification itself over Q, on the job volume:
+   refused to start <-> free < floor(tau total min_space) *)
+Definition smon_exact (c : scase) : bool :=
+  match s_out c with
+  | SStarted => mon_exact (DC (s_total c) (s_ms c) [(s_free c, false)])
+  | SRefused => mon_exact (DC (s_total c) (s_ms c) [(s_free c, true)])
+  | SNotRun => true
+  end.
+
+Definition sdiffs (l : list scase) := bad_idx sdiff_case l.
+Definition smons (l : list scase) := mon_idx [smon_exact] l.
